@@ -146,8 +146,28 @@ impl Meta {
     pub fn write(page_pool: &PagePool, fd: &File, meta: &Meta) -> std::io::Result<()> {
         let mut page = page_pool.alloc_fat_page();
         meta.encode_to(&mut page.as_mut()[..META_SIZE]);
+        #[cfg(feature = "verif")]
+        {
+            use std::os::fd::AsRawFd as _;
+            crate::verif::io::before_fd(
+                fd.as_raw_fd(),
+                crate::verif::io::Kind::Write {
+                    off: 0,
+                    data: page[..].to_vec(),
+                },
+            )?;
+        }
         fd.write_all_at(&page[..], 0)?;
+        #[cfg(feature = "verif")]
+        crate::verif::io::after();
+        #[cfg(feature = "verif")]
+        {
+            use std::os::fd::AsRawFd as _;
+            crate::verif::io::before_fd(fd.as_raw_fd(), crate::verif::io::Kind::Fsync)?;
+        }
         fd.sync_all()?;
+        #[cfg(feature = "verif")]
+        crate::verif::io::after();
         Ok(())
     }
 }
